@@ -689,6 +689,91 @@ theorem silent_within (r : Recorded) : Prims.silent.Within r := by
   refine ⟨?_, ?_, ?_, ?_, ?_, ?_, ?_, ?_, ?_, ?_, ?_, ?_, ?_, ?_, ?_, ?_, ?_, ?_⟩ <;>
     simp [Prims.silent, Prims.quiet, raisesOnly, raisesOnlyO]
 
+/-! ### `original_encoding` names a codec -/
+
+/-- every codec recorded as `original_encoding` passes `"".encode(codec)` -/
+def EncInv (enc : Nat → Except Err Unit) (st : DammitState) : Prop := ∀ c, st.originalEncoding = some c → enc c = .ok ()
+
+theorem guardedDecode_ok (enc : Nat → Except Err Unit) (decode : Nat → Bool → Except Err PStr) (empty : Bool)
+    (hlook : empty = false → ∀ c b u, decode c b = .ok u → enc c = .ok ()) (c : Nat) (b : Bool) (u : PStr)
+    (h : guardedDecode enc decode empty c b = .ok u) : enc c = .ok () := by
+  unfold guardedDecode at h
+  cases empty with
+  | true =>
+    simp only [if_true] at h
+    cases he : enc c with
+    | ok x => rfl
+    | error x => rw [he] at h; cases h
+  | false =>
+    simp only [Bool.false_eq_true, if_false] at h
+    exact hlook rfl c b u h
+
+theorem convertFromE_encInv {V : Type} (code : Code) (P : Prims V) (enc : Nat → Except Err Unit) (empty : Bool)
+    (hlook : empty = false → ∀ c b u, P.decode c b = .ok u → enc c = .ok ()) (st : DammitState) (e : Nat) (b : Bool)
+    (r : Option PStr × DammitState) (hi : EncInv enc st)
+    (h : convertFromE code (P.withEmptyGuard enc empty) st e b = .ok r) : EncInv enc r.2 := by
+  unfold convertFromE at h
+  split at h
+  · cases h
+  · injection h with h; subst h; exact hi
+  · rename_i c _
+    split at h
+    · injection h with h; subst h; exact hi
+    · simp only at h
+      split at h
+      · rename_i u hd
+        injection h with h; subst h
+        intro c' hc'
+        simp only at hc'
+        injection hc' with hc'; subst hc'
+        exact guardedDecode_ok enc P.decode empty hlook c b u hd
+      · split at h
+        · injection h with h; subst h; exact hi
+        · cases h
+
+theorem pass1E_encInv {V : Type} (code : Code) (P : Prims V) (enc : Nat → Except Err Unit) (empty : Bool)
+    (hlook : empty = false → ∀ c b u, P.decode c b = .ok u → enc c = .ok ()) (cs : List (Except Err Nat))
+    (st : DammitState) (r : Option PStr × DammitState) (hi : EncInv enc st)
+    (h : pass1E code (P.withEmptyGuard enc empty) cs st = .ok r) : EncInv enc r.2 := by
+  induction cs generalizing st with
+  | nil => simp only [pass1E] at h; injection h with h; subst h; exact hi
+  | cons x xs ih =>
+    cases x with
+    | error c => simp only [pass1E] at h; cases h
+    | ok e =>
+      simp only [pass1E] at h
+      split at h
+      · cases h
+      · rename_i u st' hc
+        injection h with h; subst h
+        exact convertFromE_encInv code P enc empty hlook st e false _ hi hc
+      · rename_i st' hc
+        exact ih st' (convertFromE_encInv code P enc empty hlook st e false _ hi hc) h
+
+theorem pass2E_encInv {V : Type} (code : Code) (P : Prims V) (enc : Nat → Except Err Unit) (empty : Bool)
+    (hlook : empty = false → ∀ c b u, P.decode c b = .ok u → enc c = .ok ()) (cs : List (Except Err Nat))
+    (u : Option PStr) (st : DammitState) (r : Option PStr × Bool × DammitState) (hi : EncInv enc st)
+    (h : pass2E code (P.withEmptyGuard enc empty) cs u st = .ok r) : EncInv enc r.2.2 := by
+  induction cs generalizing u st with
+  | nil => simp only [pass2E] at h; injection h with h; subst h; exact hi
+  | cons x xs ih =>
+    cases x with
+    | error c => simp only [pass2E] at h; cases h
+    | ok e =>
+      simp only [pass2E] at h
+      split at h
+      · cases h
+      · rename_i rr hr
+        have hrr : EncInv enc rr.2 := by
+          split at hr
+          · injection hr with hr; subst hr; exact hi
+          · exact convertFromE_encInv code P enc empty hlook st e true _ hi hr
+        split at h
+        · split at h
+          · cases h
+          · injection h with h; subst h; exact hrr
+        · exact ih _ _ hrr h
+
 /-- the loop with attempts that end accepted, rejected or in `ParserRejectedMarkup` -/
 theorem retry_outcome_prm {V : Type} (m : Machine V)
     (hf : ∀ o, (m.feed o).2 = .accept ∨ (m.feed o).2 = .reject ∨ (m.feed o).2 = .raise .parserRejectedMarkup)
